@@ -80,8 +80,9 @@ class KuramotoSivashinskyPDE(SDEBase):
     @property
     def expression(self) -> str:
         """str: the expression of the right hand side of this PDE"""
-        expr = f"c + {expr_prod(self.nu, '∇²c')}"
-        return f"-∇²({expr}) - 0.5 * |∇c|²"
+        # the operators are written out separately as they are applied separately, which
+        # matters for inhomogeneous boundary conditions
+        return f"-{expr_prod(self.nu, '∇²(∇²c)')} - ∇²c - 0.5 * |∇c|²"
 
     def evolution_rate(  # type: ignore
         self,
